@@ -822,6 +822,27 @@ pub fn flag_family() -> Vec<Seq> {
         }
     }
     }
+    // flat sequences of flagged literals (no group): f1 L1 f2 L2 [f3 L3] over a cased and an uncased
+    // literal - adjacent literal tokens that differ only in their flag
+    for l1 in ["a", "."] {
+        for l2 in ["b", "1"] {
+            for f1 in &flags {
+                for f2 in &flags {
+                    let mut s = f(*f1);
+                    s.push(l(l1));
+                    s.extend(f(*f2));
+                    s.push(l(l2));
+                    out.push(s.clone());
+                    for f3 in &flags {
+                        let mut t = s.clone();
+                        t.extend(f(*f3));
+                        t.push(l("c"));
+                        out.push(t);
+                    }
+                }
+            }
+        }
+    }
     let mut out: Vec<Seq> = out.into_iter().map(|s| crate::astops::normalize(&s)).filter(|s| is_canonical(s)).collect();
     out.sort();
     out.dedup();
